@@ -1,6 +1,9 @@
 package main
 
-import "strings"
+import (
+	"os"
+	"strings"
+)
 
 // Property plans: which packages / build configurations / contract groups decide each property.
 
@@ -133,6 +136,27 @@ func buildPlan(id string, pinned map[string]string, tier string) *Plan {
 			"towers of bw6-633, bw6-761 (E3/E6 over fp) and the small-field extensions: not under contract",
 			"assembly E2 kernels on amd64 (e2_amd64.s): outside (C09)"}
 		p.Note = "Every tower operation under contract equals the product/sum computed by schoolbook convolution in R[X]/(X^k - nr) from the documented polynomials; sparse products equal the generic product applied to the operand with the documented zero/one coordinates; all alias partitions, including (where the contract says 'option interior') operands pointing into the receiver."
+		return p
+	case "C13":
+		p := &Plan{ID: id}
+		p.Units = append(p.Units, Unit{Pkg: "./field/hash", Tags: "", Groups: []string{"expand"}})
+		for _, pk := range fps {
+			if _, err := os.Stat("/repo/" + strings.TrimPrefix(pk, "./") + "/zz_verif_contracts_hash.go"); err == nil {
+				p.Units = append(p.Units, Unit{Pkg: pk, Tags: "", Groups: []string{"hash"}, Deps: []string{"field/hash:expand"}})
+			}
+		}
+		for _, u := range sgn0Units("/repo") {
+			p.Units = append(p.Units, Unit{Pkg: u.Pkg, Tags: "", Groups: u.Groups, Deps: u.Deps})
+		}
+		p.Trusted = []string{"assumed contracts of hash.Hash as returned by sha256.New (digest size 32, block size 64, Write never fails and reports len(p), Sum appends one digest)",
+			"sha256.New, the big.Int pool, big.Int.SetBytes and Element.SetBigInt are opaque calls in Hash (their results are arbitrary; setter-style methods write their receiver only)",
+			"fp.Element.Bits is used through its contract (proved under C08); reg(v) is the integer denoted by a Montgomery representation"}
+		p.Assumptions = []string{"Hash: 0 <= count <= 2^32 (count*L does not wrap; a wrapping count would pass the length test and reach make with a huge length)",
+			"loop-carried digest slices of ExpandMsgXmd are fresh allocations (option fresh-loop-slices: every value assigned is a result of Sum(nil))"}
+		p.NotCovered = []string{"the bytes that are hashed (the b_0, b_i chain of expand_message_xmd) and the reduction of each block modulo q are not under contract: SHA-256 and math/big are outside",
+			"MapToCurve (SvdW / SSWU), the isogenies, cofactor clearing, HashToG1/G2, EncodeToG1/G2: not under contract (is_square / sqrt case analysis is number theory at the ring layer)",
+			"RFC test vectors: a test-suite matter, not a contract"}
+		p.Note = "expand_message_xmd is total (every slice, index and allocation is a discharged obligation for every message, DST and length), returns exactly lenInBytes bytes, and returns an error exactly when the parameters are inadmissible (length outside 0..255*32 or DST longer than 255 bytes); Hash (hash_to_field) of every field returns exactly count elements, is total, and refuses exactly the inadmissible parameters with L = 16 + ceil(bits/8) recomputed from the pinned modulus; the sgn0 helpers return the parity of the integer denoted by the element (for Fp2: of x0, or of x1 when x0 = 0), and the NotZero helpers are zero exactly for the zero element."
 		return p
 	case "C20":
 		p := &Plan{ID: id}
